@@ -80,6 +80,12 @@ fn cases_structural(_rng: &mut Rng, sink: &mut dyn FnMut(J) -> bool) {
             for n in [1, 2, 3, 4, 10, 40] {
                 muts.push(json!({"kind": "truncate_sig", "n": n}));
             }
+            // extra '.'-separated segments at the end, in the middle and at the front of the issuer JWT
+            for whre in ["end", "after_header", "after_payload", "front"] {
+                for text in ["", "AAAA", "e30", "e30.AAAA", "$forged_payload", "$forged_payload.$signature", ".", "..", "$header"] {
+                    muts.push(json!({"kind": "extra_segment", "where": whre, "text": text}));
+                }
+            }
             // payload segment replaced by other JSON text that parses to the same value
             for how in ["space_after_colon", "pretty", "trailing_space", "leading_space", "trailing_newline", "newline_between_members", "escape_name", "escape_value", "escape_digest_char", "shadow_dup", "shadow_dup_sd", "reorder", "reverse"] {
                 muts.push(json!({"kind": "payload_respell", "how": how}));
@@ -420,6 +426,22 @@ pub fn mutate(cfg: &Cfg, p: &Parts, m: &J) -> Option<(Parts, J)> {
             }
             let (_, p2) = cfg2.issue_parts().ok()?;
             Some((set_part(p, part, get_part(&p2, part)), own_key))
+        }
+        "extra_segment" => {
+            let mut forged = p.payload()?;
+            forged.insert("admin".into(), json!(true));
+            let text = m["text"].as_str()?
+                .replace("$forged_payload", &b64e(jstr(&J::Object(forged)).as_bytes()))
+                .replace("$signature", p.signature_b64())
+                .replace("$header", p.header_b64());
+            let (h, pl, s) = (p.header_b64(), p.payload_b64(), p.signature_b64());
+            let jwt = match m["where"].as_str()? {
+                "end" => format!("{h}.{pl}.{s}.{text}"),
+                "after_header" => format!("{h}.{text}.{pl}.{s}"),
+                "after_payload" => format!("{h}.{pl}.{text}.{s}"),
+                _ => format!("{text}.{h}.{pl}.{s}"),
+            };
+            Some((Parts { jwt, disclosures: p.disclosures.clone(), kb: p.kb.clone() }, own_key))
         }
         "payload_respell" => {
             let text = String::from_utf8(crate::util::b64d(p.payload_b64())?).ok()?;
